@@ -55,7 +55,7 @@ class FuncInfo:
 
     @property
     def file(self) -> str:
-        return self.module.replace(".", "/") + ".py"
+        return self.module.replace(".", "/") + ".py"  # (sub-package __init__ is shown as <pkg>.py)
 
     def where(self, node: Optional[ast.AST] = None) -> str:
         n = node if node is not None else self.node
@@ -178,7 +178,10 @@ class Source:
         self.parse_errors: list[str] = []
         for p in sorted(self.pkg.rglob("*.py")):
             rel = p.relative_to(self.pkg).with_suffix("")
-            name = ".".join(rel.parts)
+            parts = rel.parts
+            if len(parts) > 1 and parts[-1] == "__init__":
+                parts = parts[:-1]  # a sub-package is addressed by its directory name
+            name = ".".join(parts)
             try:
                 self.modules[name] = Module(name, p)
             except SyntaxError as e:
